@@ -477,3 +477,81 @@ def uninit_local_reads(run, fns, rule='R1', instance='local-init'):
             else:
                 run.ok(rule, instance, '%s: local %s' % (fn.norm, name), fn.loc(d), 'assigned on every path before every read')
     return n_decl
+
+
+# ---------------------------------------------------------------------------
+# R16 lock discipline: std::mutex is not recursive - while a scoped guard on mutex M is alive no call may reach a
+# function that locks M again
+LOCK_TYPES = ('std::lock_guard<', 'std::unique_lock<', 'std::scoped_lock<')
+
+
+def lock_decls(fn):
+    """[(decl stmt, var, mutex field qualified name)] for scoped guards on a member mutex."""
+    out = []
+    for n in fn.all_nodes():
+        if n['k'] != 'decl':
+            continue
+        for v in n['vars']:
+            t = fn.ty(v.get('t')) or ''
+            if not t.startswith(LOCK_TYPES) or not is_node(v.get('init')):
+                continue
+            for x in walk(v['init']):
+                f = q.field_name(x) if x['k'] == 'member' else None
+                if f:
+                    out.append((n, v, f))
+                    break
+    return out
+
+
+def _scope_after(fn, decl):
+    """Nodes evaluated while the guard declared by `decl` is alive: the statements that follow it in its compound."""
+    p = fn.parent(decl)
+    if p is None or p['k'] != 'compound':
+        return []
+    ch = p.get('ch', [])
+    idx = next((i for i, c in enumerate(ch) if c is decl), None)
+    if idx is None:
+        return []
+    out = []
+    for st in ch[idx + 1:]:
+        out.extend(walk(st))
+    return out
+
+
+def r16_no_relock(run, rule='R16', floor=2):
+    fx = run.fx
+    import p04
+    locks = {}
+    for fn in fx.repo_functions():
+        if fn.cfg is None:
+            continue
+        for d, v, m in lock_decls(fn):
+            locks.setdefault(fn.usr, set()).add(m)
+    n = 0
+    for fn in fx.repo_functions():
+        if fn.cfg is None:
+            continue
+        for d, v, m in lock_decls(fn):
+            n += 1
+            run.touch(fn)
+            bad = None
+            for c in _scope_after(fn, d):
+                if c['k'] not in ('call', 'construct') or not c.get('usr'):
+                    continue
+                tg = fx.by_usr(c['usr'])
+                if not tg:
+                    continue
+                reach = p04.reachable(fx, tg[0]) | {c['usr']}
+                hit = [u for u in reach if m in locks.get(u, ())]
+                if hit:
+                    bad = (c, fx.by_usr(hit[0])[0])
+                    break
+            construct = '%s: guard on %s' % (fn.norm, m.split('::')[-1])
+            if bad:
+                run.violation(rule, 'no-relock', construct, fn.loc(bad[0]),
+                              'while the guard on %s (line %d) is held, the call %s reaches %s, which locks the same non-recursive std::mutex again: the thread deadlocks (undefined behaviour)'
+                              % (m.split('::')[-1], d['l'], q.render(fn, bad[0])[:60], bad[1].norm))
+            else:
+                run.ok(rule, 'no-relock', construct, fn.loc(d), 'no call in the guarded scope reaches a function that locks %s' % m.split('::')[-1])
+    if n < floor:
+        run.broke('only %d scoped mutex guards found (%d confirmed by hand)' % (n, floor))
